@@ -24,7 +24,9 @@ func c03EngineTies(r *Report, known []Finding, root *RNG) {
 	}
 	fixed := []string{`(a)(b)?`, `(a|ab)(c|bcd)(d*)`, `(a+)(b+)?`, `((a)|(b))*`, `(a*)*`, `(a*)+`, `(?:(a)|b)*`, `()`, `(a*)`, `((?:x)?)`, `(a+?)`, `(a|ab)*`, `(\b)`, `(a)\b(b)`, `(\w+)\B`,
 		`a*(b)`, `(.+)b`, `^(\d+)-(\d+)$`, `(?m)^(\w+)=(\w*)$`, `(x*)(y?)`, `(a??)(a*)`, `(é+)(.)`, `(?:(a)|(b)|(c))+`, `(a{2,3}?)(a*)`, `([a-c]+)([b-d]+)`,
-		`(a)?x?b`, `(a)?(b)?c`, `(\d+)?[a-z]?;`, `^(?:-(\d+)|(\w*))`, `^(?:x|(y*))`, `^(?:foo|(\d*))`, `^(?:#(\w+)|(\d*)) ?`, `^(a)?(?:b|(c*))`, `(?:(a)|b)(?:(c)|d)?`}
+		`(a)?x?b`, `(a)?(b)?c`, `(\d+)?[a-z]?;`, `^(?:-(\d+)|(\w*))`, `^(?:x|(y*))`, `^(?:foo|(\d*))`, `^(?:#(\w+)|(\d*)) ?`, `^(a)?(?:b|(c*))`, `(?:(a)|b)(?:(c)|d)?`,
+		// alternatives that end in the same byte and reach the same state but open different groups (one-pass conflict on the slot mask)
+		`(?:x|(y*)x)`, `^(?:-|(\d*)-)(\d+)`, `(?:(y*)x|x)`, `(\w*):|:`, `^(?:a|(b?)a)c`, `(?:(a)?b|b)`}
 	type cs struct {
 		p, kind, req, got, desc string
 		h                       []byte
